@@ -11,7 +11,9 @@ CONSTANTS Algs, Muts, Fixed
 
 \* RelayState by the characters it contains: the two form encoders in the package (six.moves = the standard library in
 \* pack.py, future.backports in sigver.py as pinned) and RFC 3986 quoting differ on exactly these classes
-RelayClasses == {"none", "amp", "space", "tilde", "unreserved", "unicode"}
+\* "pctliteral": the RelayState text itself contains percent signs and what looks like percent-escapes ("50%25 off"): every
+\* encoder spells a percent sign %25, and the verifier works on the values as decoded once -- by the transport, not again
+RelayClasses == {"none", "amp", "space", "tilde", "unreserved", "unicode", "pctliteral"}
 Scn == [alg : Algs, typ : {"SAMLRequest", "SAMLResponse"}, relay : RelayClasses,
         mut : Muts,
         \* the certificate handed to the verifier: the signer's, another entity's, another entity's that has expired;
